@@ -233,6 +233,8 @@ func NewDialogueRunner(storer variable.Storer, rngSeed string, readers ...io.Rea
 		commandStorer:   newCommandStorer(),
 		visitedNodes:    map[string]int{},
 		currentNode:     firstNode.Title(),
+
+		variableSnapshot: storer.GetValues(),
 	}
 
 	functionStorer := newFunctionStorer(rng)
